@@ -1,3 +1,6 @@
-(* Engine entry points for C04: run_c04 sub-op case.  (stub until the property's model exists) *)
-From Pan Require Import Base.Common Base.Sx.
-Definition run_c04 (sub : Z) (x : sx) : sx := SL [SZ (-1)].
+(* Engine entry point for C04: relabelling. *)
+From Pan Require Import Base.Common Base.Sx Model.Metrics Model.Relabel Run.Codec.
+(* sub 1: (M arr2) -> new prediction labels per voxel *)
+Definition run_relabel (x : sx) : sx :=
+  SL (map (fun v => SZ (snd v)) (map_instance_labels (map sZZ (sL (sNth 0 x))) (map sZZ (sL (sNth 1 x))))).
+Definition run_c04 (sub : Z) (x : sx) : sx := if sub =? 1 then run_relabel x else SL [SZ (-1)].
